@@ -2,9 +2,13 @@
 //   RT  <S|M|J> x<tid16> x<sid8> <flags> <remote> x<tracestate header>   inject into an empty carrier, extract from it
 //   EXT B <b3> <X-B3-TraceId> <X-B3-SpanId> <X-B3-Sampled>               x<bytes> or NONE (header absent)
 //   EXT J <uber-trace-id>
+//   RTD <S|M|J|C> <ctx: 5 tokens> (SPAN <ctx: 5 tokens> | NOSPAN) <nkeys>   inject ctx into an empty carrier, extract into a
+//       destination Context holding nkeys unrelated int64 values ("verif.k<i>" = 100+i) and, for SPAN, that span;
+//       C = CompositePropagator{B3Propagator, B3PropagatorMultiHeader, JaegerPropagator}
 #include <map>
 #include <memory>
 #include "opentelemetry/context/context.h"
+#include "opentelemetry/context/propagation/composite_propagator.h"
 #include "opentelemetry/context/propagation/text_map_propagator.h"
 #include "opentelemetry/trace/context.h"
 #include "opentelemetry/trace/default_span.h"
@@ -69,6 +73,57 @@ static void print_extract(context::propagation::TextMapPropagator &prop, Carrier
       .bytes(sc.trace_state()->ToHeader());
 }
 
+static void print_span(const trace::SpanContext &sc, Out &o)
+{
+  char tid[16], sid[8];
+  sc.trace_id().CopyBytesTo(nostd::span<uint8_t, 16>(reinterpret_cast<uint8_t *>(tid), 16));
+  sc.span_id().CopyBytesTo(nostd::span<uint8_t, 8>(reinterpret_cast<uint8_t *>(sid), 8));
+  o.tag("OK").bytes(tid, 16).bytes(sid, 8).num(sc.trace_flags().flags()).boolean(sc.IsRemote())
+      .bytes(sc.trace_state()->ToHeader());
+}
+
+static bool is_ctx(const std::vector<Tok> &t, size_t i)
+{
+  return i + 5 <= t.size() && t[i].kind == Tok::BYTES && t[i].s.size() == 16 && t[i + 1].kind == Tok::BYTES &&
+         t[i + 1].s.size() == 8 && t[i + 2].kind == Tok::INT && t[i + 3].kind == Tok::INT && t[i + 4].kind == Tok::BYTES;
+}
+
+// Extract into a destination context that holds nkeys unrelated values and possibly a span of its own
+static void print_extract_into(context::propagation::TextMapPropagator &prop, Carrier &c, const trace::SpanContext *dst, int nkeys,
+                               Out &o)
+{
+  context::Context in;
+  for (int i = 1; i <= nkeys; i++) in = in.SetValue("verif.k" + std::to_string(i), int64_t(100 + i));
+  nostd::shared_ptr<trace::Span> own;
+  if (dst)
+  {
+    own = nostd::shared_ptr<trace::Span>(new trace::DefaultSpan(*dst));
+    in  = trace::SetSpan(in, own);
+  }
+  context::Context out = prop.Extract(c, in);
+  int intact           = 0;
+  for (int i = 1; i <= nkeys; i++)
+  {
+    auto v = out.GetValue("verif.k" + std::to_string(i));
+    if (nostd::holds_alternative<int64_t>(v) && nostd::get<int64_t>(v) == 100 + i) intact++;
+  }
+  o.tag("K").num(intact);
+  bool untouched;
+  nostd::shared_ptr<trace::Span> sp;
+  if (dst)
+  {
+    sp        = trace::GetSpan(out);
+    untouched = sp.get() == own.get();
+  }
+  else
+  {
+    untouched = !out.HasKey(trace::kSpanKey);
+    if (!untouched) sp = trace::GetSpan(out);
+  }
+  if (untouched) o.tag("INVALID").boolean(out == in);
+  else print_span(sp->GetContext(), o);
+}
+
 static void inject(context::propagation::TextMapPropagator &prop, const trace::SpanContext &sc, Carrier &c)
 {
   nostd::shared_ptr<trace::Span> sp{new trace::DefaultSpan(sc)};
@@ -107,6 +162,31 @@ int main(int argc, char **argv)
       Carrier c;
       inject(*p, make_ctx(t, 2), c);
       print_extract(*p, c, o);
+      dump(c, o);
+    }
+    else if (t.size() >= 9 && t[0].is_tag("RTD") && is_ctx(t, 2) &&
+             ((t.size() == 9 && t[7].is_tag("NOSPAN")) || (t.size() == 14 && t[7].is_tag("SPAN") && is_ctx(t, 8))) &&
+             t.back().kind == Tok::INT && t.back().as_ll() >= 0 && t.back().as_ll() <= 9)
+    {
+      std::vector<std::unique_ptr<context::propagation::TextMapPropagator>> members;
+      members.emplace_back(new trace::propagation::B3Propagator());
+      members.emplace_back(new trace::propagation::B3PropagatorMultiHeader());
+      members.emplace_back(new trace::propagation::JaegerPropagator());
+      context::propagation::CompositePropagator comp(std::move(members));
+      context::propagation::TextMapPropagator *p =
+          t[1].is_tag("S") ? static_cast<context::propagation::TextMapPropagator *>(&b3s)
+          : t[1].is_tag("M") ? static_cast<context::propagation::TextMapPropagator *>(&b3m)
+          : t[1].is_tag("J") ? static_cast<context::propagation::TextMapPropagator *>(&jg)
+          : t[1].is_tag("C") ? static_cast<context::propagation::TextMapPropagator *>(&comp) : nullptr;
+      if (!p) { o.tag("BADCASE"); return; }
+      Carrier c;
+      inject(*p, make_ctx(t, 2), c);
+      if (t.size() == 14)
+      {
+        trace::SpanContext dst = make_ctx(t, 8);
+        print_extract_into(*p, c, &dst, int(t.back().as_ll()), o);
+      }
+      else print_extract_into(*p, c, nullptr, int(t.back().as_ll()), o);
       dump(c, o);
     }
     else if (t.size() == 6 && t[0].is_tag("EXT") && t[1].is_tag("B") && bytes_or_none(t[2]) && bytes_or_none(t[3]) &&
